@@ -1261,7 +1261,7 @@ PassMessageCallbackAux(DataNode & node, const MessageRef & msgRef, bool includeS
 
    StorageReflectSession * next = dynamic_cast<StorageReflectSession *>(GetSession(node.GetAncestorNode(NODE_DEPTH_SESSIONNAME, &node)->GetNodeName())());
    if ((next)&&((next != this)||(includeSelfOkay))) next->MessageReceivedFromSession(*this, msgRef, &node);
-   return NODE_DEPTH_SESSIONNAME; // This causes the traversal to immediately skip to the next session
+   return NODE_DEPTH_HOSTNAME;  // pops the traversal back out to the loop over session nodes, so each session gets the Message only once
 }
 
 int
@@ -1685,6 +1685,7 @@ CheckChildForTraversal(TraversalContext & data, DataNode * nextChild, int32 optK
                                  depth = nextDepth;
                                  return true;
                               }
+                              if (nextDepth < (int)nextChild->GetDepth()) return false;  // the callback asked us not to go below this child, so we are done with it
                               matched = true;
                               if (recursed) break;  // done both possible actions, so be lazy
                            }
@@ -1701,6 +1702,7 @@ CheckChildForTraversal(TraversalContext & data, DataNode * nextChild, int32 optK
                               depth = nextDepth;
                               return true;
                            }
+                           if (nextDepth < (int)nextChild->GetDepth()) return false;  // something below asked the traversal to leave this child, so we are done with it
                            recursed = true;
                            if (matched) break;  // done both possible actions, so be lazy
                         }
